@@ -206,6 +206,27 @@ func genC15(e *emitter, tier string) {
 			}
 		}
 	}
+	// the gate as Run applies it: nodes whose input lists are too long or too short once the empty names
+	// (omitted OPTIONAL inputs) are counted in, through Model.Run (an empty name at a REQUIRED position is a
+	// malformed node, outside the property: the unchanged code panics on it)
+	{
+		x := NamedT{"x", smallT("f32", []int{2, 2}, 1)}
+		vin := []VInfoJ{{Name: "x", Dt: "f32", Dims: []any{2, 2}}}
+		for _, n := range []NodeJ{
+			{Op: "Relu", Ins: []string{"x", ""}, Outs: []string{"y"}},
+			{Op: "Add", Ins: []string{"x", "x", ""}, Outs: []string{"y"}},
+			{Op: "Squeeze", Ins: []string{"x", "", "", ""}, Outs: []string{"y"}},
+			{Op: "Gemm", Ins: []string{"x", "x", "", ""}, Outs: []string{"y"}},
+			{Op: "Gemm", Ins: []string{"x", "x", ""}, Outs: []string{"y"}},
+			{Op: "MatMul", Ins: []string{"x", "x", ""}, Outs: []string{"y"}},
+			{Op: "Flatten", Ins: []string{"x", "", ""}, Outs: []string{"y"}},
+			{Op: "Relu", Ins: []string{}, Outs: []string{"y"}},
+			{Op: "Transpose", Ins: []string{"x", ""}, Outs: []string{"y"}},
+			{Op: "Conv", Ins: []string{"x", "x", "", ""}, Outs: []string{"y"}},
+		} {
+			e.emit(graphCase("arity-through-run", &GraphJ{Inputs: vin, Nodes: []NodeJ{n}, Outputs: []string{"y"}}, []NamedT{x}))
+		}
+	}
 	// names outside the opset
 	for _, bad := range []string{"", "abs", "ABS", "Abs ", " Abs", "Abs\n", "\tRelu", "Conv2D", "Foo", "Gelu", "MaxPool", "Relu6", "Rel", "lstm", "Lstm", "Identity", "Dropout", "ai.onnx.Relu", "Relu:13", "Add,Sub"} {
 		c := &Case{Kind: "lookup", Op: bad, P: map[string]any{"registered": false}}
